@@ -1123,6 +1123,11 @@ class Client():
                                          " before response completed")
                 self.respondent.ended = True
                 self.respondent.started = False
+                del self.respondent.msg[:]  # rest is of dead connection not of next response
+                if not self.respondent.headed:  # not those of the prior response
+                    self.respondent.headers = help.Hict()
+                    self.respondent.body = bytearray()
+                    self.respondent.redirectant = False
 
             if self.respondent.ended:
                 self.respondent.dictify()
